@@ -35,15 +35,17 @@ class KernelProp(Prop):
     def model_request(self, case, impl):
         # the scheduler's choice of which waiter runs first after a failed generation is
         # taken from the observation (the model accepts any waiter)
-        from .gen_kernel import resolve_reraise
+        from .gen_kernel import resolve_reraise, undefer
 
-        ops = [({**op, "next": r["next"]} if "next" in r else op) for op, r in zip(resolve_reraise(case["ops"]), impl)]
+        ops = [({**op, "next": r["next"]} if "next" in r else op) for op, r in zip(undefer(resolve_reraise(case["ops"])), impl)]
         # the model's task id of an async lookup is only a label: use the lookup's own id
         ops = [({**op, "t": op["lid"]} if op["op"] == "get" and "lid" in op else op) for op in ops]
         # a child context entered by a helper task that then ends without leaving it = `new` + `enter` by a
         # task of its own
         out = []
         for op in ops:
+            if op["op"] == "noop":
+                continue
             if op["op"] == "leak":
                 out += [{"op": "new", "t": 9000 + op["c"], "c": op["c"], "parent": op["parent"]},
                         {"op": "enter", "t": 9000 + op["c"], "c": op["c"]}]
@@ -57,10 +59,14 @@ class KernelProp(Prop):
         return {"kind": "ctx", "ops": out}
 
     def compare(self, case, impl, model):
+        from .gen_kernel import undefer
+
         mo = list(model["out"])
         merged = []
-        for op in case["ops"]:
-            if (op["op"] == "leak" or (op["op"] == "addtd" and op.get("enterSub") is not None)) and len(mo) >= 2:
+        for op in undefer(case["ops"]):
+            if op["op"] == "noop":
+                merged.append({"res": op["want"], "ev": []})
+            elif (op["op"] == "leak" or (op["op"] == "addtd" and op.get("enterSub") is not None)) and len(mo) >= 2:
                 a, b = mo.pop(0), mo.pop(0)
                 merged.append({"res": a["res"] + b["res"], "ev": a["ev"] + b["ev"]})
             elif mo:
